@@ -132,6 +132,16 @@ func GenPressureScript(t *rapid.T, prop, profile string, o GenOpts) *Script {
 		s.World.Workloads = append(s.World.Workloads, w)
 		fi++
 	}
+	// a few small pending workloads competing for whatever is left
+	np := rapid.IntRange(0, 2).Draw(t, "ppending")
+	for i := 0; i < np; i++ {
+		w := WorkloadSpec{Name: fmt.Sprintf("p%d", i), Queue: pick(t, "pq", leaves...), MinMember: 1, AgeSec: int64(rapid.IntRange(1, 5000).Draw(t, "page"))}
+		if chance(t, "ppc", 50) {
+			w.PriorityClass = pick(t, "ppcv", "train", "low", "build", "inference")
+		}
+		w.Pods = []PodSpec{{Name: fmt.Sprintf("p%d-p0", i), CPUm: 100, MemMi: 128, GPUs: int64(rapid.IntRange(1, 2).Draw(t, "pgpu")), State: "pending"}}
+		s.World.Workloads = append(s.World.Workloads, w)
+	}
 	s.Ops = genOps(t, o, &s.World)
 	s.Faults, s.BindFail = genFaults(t, o, &s.World)
 	return s
